@@ -362,7 +362,7 @@ class error_997_visitor(error_visitor.error_visitor):
             if '8' not in errors:
                 errors.append('8')
             errors = [x for x in errors if x != 'SEG1']
-        for err_cde in list(set(errors)):
+        for err_cde in sorted(set(errors)):
             if err_cde in valid_AK3_codes:  # unique codes
                 seg_data = pyx12.segment.Segment(seg_str, '~', '*', ':')
                 seg_data.set('AK304', err_cde)
